@@ -125,7 +125,7 @@ H("C18", "vk_codec", "c18_slot_decode_encode_fat32", desc="decode any 32-byte sl
 H("C18", "vk_codec", "c18_sfn_parse_5", desc="create_from_str == declarative 8.3 grammar (accept set and 11 bytes)", bounds="strings of 0..=5 chars <= U+07FF")
 H("C18", "vk_codec", "c18_sfn_parse_9", desc="create_from_str == declarative 8.3 grammar", bounds="strings of 0..=9 chars <= U+07FF", timeout=1800, cost=3)
 H("C18", "vk_codec", "c18_sfn_parse_13", tier="thorough", desc="create_from_str == declarative 8.3 grammar", bounds="strings of 0..=13 chars <= U+07FF", timeout=3600, cost=5)
-H("C18", "vk_codec", "c18_sfn_display_roundtrip_8_3", desc="Display then parse gives the same 11 bytes", bounds="all 8.3-shaped names", timeout=1800, cost=3)
+H("C18", "vk_codec", "c18_sfn_display_roundtrip_8_3", tier="thorough", desc="Display then parse gives the same 11 bytes", bounds="all 8.3-shaped names", timeout=1800, cost=3)
 H("C18", "vk_codec", "c18_sfn_display_roundtrip_3_1", tier="thorough", desc="Display then parse gives the same 11 bytes", bounds="all 3.1-shaped names", timeout=1800)
 H("C18", "vk_codec", "c18_sfn_display_roundtrip_5_0", tier="thorough", desc="Display then parse gives the same 11 bytes", bounds="all 5-char names", timeout=1800)
 
@@ -203,7 +203,7 @@ for n, d in [
     ("c08_has_open_handles", "has_open_handles() == dirs non-empty || files non-empty"),
 ]:
     H("C08", "vk_vm", n, desc=d, bounds="tables<=2 each, handles symbolic", timeout=900)
-H("C08", "vk_vm", "c08_lock_reentrancy", desc="each of the 22 result-returning public methods called from an iterate_dir callback returns LockError; tables and device unchanged", bounds="one-entry FAT16 root, one open volume/dir/file", timeout=900, cost=3, mem_gb=20)
+H("C08", "vk_vm", "c08_lock_reentrancy", tier="thorough", desc="each of the 22 result-returning public methods called from an iterate_dir callback returns LockError; tables and device unchanged", bounds="one-entry FAT16 root, one open volume/dir/file", timeout=900, cost=3, mem_gb=20)
 
 # ---------------------------------------------------------------------------
 # FatVolume-level harnesses shared by C03 C04 C05 C06 C10 C16
@@ -225,7 +225,7 @@ H("C05", "vk_fat", "c05_find_free32_from3", tier="thorough", desc="FAT32 find_ne
 _ad = "alloc_cluster on concrete (free map, prev, hint) instances with stale cluster contents symbolic: Ok iff a free in-range cluster exists; result in range, was free, EOC, prev linked; frame at a symbolic entry; region; failed alloc leaves the FAT unchanged"
 H("C05", "vk_fat", "c05_alloc16_a_3e_p2", desc=_ad, bounds="free map 0x3E, prev 2, zero=False, hint None", unwindset=UW_ALLOC, timeout=600, cost=2, mem_gb=16)
 H("C05", "vk_fat", "c05_alloc16_a_38_p3_h4", desc=_ad, bounds="free map 0x38, prev 3, zero=False, hint 4", unwindset=UW_ALLOC, timeout=600, cost=2, mem_gb=16)
-H("C05", "vk_fat", "c05_alloc16_a_30_p2", desc=_ad, bounds="free map 0x30, prev 2, zero=False, hint None", unwindset=UW_ALLOC, timeout=600, cost=2, mem_gb=16)
+H("C05", "vk_fat", "c05_alloc16_a_30_p2", tier="thorough", desc=_ad, bounds="free map 0x30, prev 2, zero=False, hint None", unwindset=UW_ALLOC, timeout=600, cost=2, mem_gb=16)
 H("C05", "vk_fat", "c05_alloc16_a_3f_none", desc=_ad, bounds="free map 0x3F, prev 0, zero=False, hint None", unwindset=UW_ALLOC, timeout=600, cost=2, mem_gb=16)
 H("C05", "vk_fat", "c05_alloc16_a_31_p5_h5", tier="thorough", desc=_ad, bounds="free map 0x31, prev 5, zero=False, hint 5", unwindset=UW_ALLOC, timeout=600, cost=2, mem_gb=16)
 H("C05", "vk_fat", "c05_alloc16_a_34_p2_h1000", tier="thorough", desc=_ad, bounds="free map 0x34, prev 2, zero=False, hint 1000", unwindset=UW_ALLOC, timeout=600, cost=2, mem_gb=16)
@@ -261,13 +261,13 @@ for n, t in [("c12_acquire_probe", "quick"), ("c12_acquire_sdhc_crc", "quick"), 
 for n in ["c12_capacity_sd1", "c12_capacity_sd2", "c12_capacity_sdhc"]:
     H("C12", "vk_sd", n, desc="num_blocks() == capacity encoded in the CSD for its structure version", bounds="CSD fully symbolic", unwindset=UW_SD, timeout=900, cost=2)
 for n in ["c12_read1_sdhc_crc", "c12_read1_sd1_nocrc"]:
-    H("C12", "vk_sd", n, desc="single-block read returns the addressed block; memory unchanged; legal conversation", bounds="memory+timings symbolic", unwindset=UW_SD, timeout=1800, cost=4, mem_gb=24)
+    H("C12", "vk_sd", n, tier="thorough", desc="single-block read returns the addressed block; memory unchanged; legal conversation", bounds="memory+timings symbolic", unwindset=UW_SD, timeout=1800, cost=4, mem_gb=24)
 for n in ["c12_read1_sd2_crc", "c12_read1_sdhc_nocrc_high", "c12_read2_sdhc_crc", "c12_read2_sd2_nocrc", "c12_write1_sd1_nocrc", "c12_write1_sd2_crc", "c12_write2_sdhc_crc", "c12_write2_sd1_nocrc"]:
     H("C12", "vk_sd", n, tier="thorough", desc="read/write transfer == addressed blocks, nothing else changes, legal conversation", bounds="memory+payload+timings symbolic", unwindset=UW_SD, timeout=3600, cost=5, mem_gb=24)
-H("C12", "vk_sd", "c12_write1_sdhc_crc", desc="single-block write stores exactly the given bytes at the addressed block only; legal conversation", bounds="memory+payload+timings symbolic", unwindset=UW_SD, timeout=1800, cost=4, mem_gb=24)
+H("C12", "vk_sd", "c12_write1_sdhc_crc", tier="thorough", desc="single-block write stores exactly the given bytes at the addressed block only; legal conversation", bounds="memory+payload+timings symbolic", unwindset=UW_SD, timeout=1800, cost=4, mem_gb=24)
 H("C13", "vk_sd", "c13_read_crc_mismatch_rejected", desc="CRC on: read Ok iff the appended CRC equals crc16(received data)", bounds="any 16-bit corruption of the CRC, data symbolic", unwindset=UW_SD, timeout=1800, cost=4, mem_gb=24)
 H("C13", "vk_sd", "c13_write_faults_reported", desc="write: rejected data response or non-zero CMD13 status => Err (both CRC modes)", bounds="any response token, any status byte", unwindset=UW_SD, timeout=1800, cost=4, mem_gb=24)
-H("C13", "vk_sd", "c13_read_bad_token_or_bus_error", desc="read: wrong data token or SPI error at any byte => Err", bounds="any token, any byte index", unwindset=UW_SD, timeout=1800, cost=4, mem_gb=24)
+H("C13", "vk_sd", "c13_read_bad_token_or_bus_error", tier="thorough", desc="read: wrong data token or SPI error at any byte => Err", bounds="any token, any byte index", unwindset=UW_SD, timeout=1800, cost=4, mem_gb=24)
 UW_SD_EVIL = UW_SD[:3] + [("acquire", r"for _ in 0\\.\\.0xFF", 256), ("acquire", r"while s\\.card_acmd", 5)]
 _stub = ["-Z", "stubbing"]
 H("C13", "vk_sd", "c13_delay_budget_step", desc="Delay::delay fails exactly when the budget is 0, else decrements by one", bounds="all 2^32 budgets")
@@ -279,7 +279,7 @@ H("C13", "vk_sd", "c13_bounded_acquire", tier="thorough", desc="adversarial peer
 for n, t in [("c12_acquire_probe", "quick"), ("c12_acquire_sdhc_crc", "quick"), ("c12_acquire_sd1_nocrc", "quick"), ("c12_acquire_sd2_crc", "thorough"), ("c12_acquire_sdhc_nocrc_d2", "thorough"), ("c12_acquire_sd1_crc_d2", "thorough")]:
     H("C14", "vk_sd", n, tier=t, desc="identification conversation legal: frames (start/transmission bits, CRC-7, end bit), CMD0 first, CMD8 before ACMD41, CMD55 prefix, HCS for v2 cards, not while busy", bounds="kind/CRC/timing per instance", unwindset=UW_SD, timeout=900, cost=2)
 H("C14", "vk_sd", "c14_reinit_after_uninit", desc="re-initialisation after mark_card_uninit from a ready card: legal conversation, card initialised again", bounds="SDHC, CRC before/after symbolic", unwindset=UW_SD, timeout=900, cost=2)
-for n, t in [("c12_read1_sdhc_crc", "quick"), ("c12_write1_sdhc_crc", "quick"), ("c12_read2_sdhc_crc", "thorough"), ("c12_write2_sdhc_crc", "thorough"), ("c12_read2_sd2_nocrc", "thorough"), ("c12_write2_sd1_nocrc", "thorough")]:
+for n, t in [("c12_read1_sdhc_crc", "thorough"), ("c12_write1_sdhc_crc", "thorough"), ("c12_read2_sdhc_crc", "thorough"), ("c12_write2_sdhc_crc", "thorough"), ("c12_read2_sd2_nocrc", "thorough"), ("c12_write2_sd1_nocrc", "thorough")]:
     H("C14", "vk_sd", n, tier=t, desc="data transfer conversation legal: data commands only when ready, token + 512 bytes + 2 CRC bytes (valid when CRC on), host idle while card sends, CMD18 ended by CMD12, CMD25 by the stop token, nothing sent while busy", bounds="memory/payload symbolic, timing per instance", unwindset=UW_SD, timeout=3600, cost=5, mem_gb=30)
 
 # ---------------------------------------------------------------------------
@@ -287,8 +287,8 @@ for n, t in [("c12_read1_sdhc_crc", "quick"), ("c12_write1_sdhc_crc", "quick"), 
 # ---------------------------------------------------------------------------
 PROPS["C06"] = dict(
     bounds="directory contents fully symbolic (every byte of every slot: live, deleted, long-name, volume-label slots and end "
-           "markers arise as values): FAT16 fixed root of 16 slots; FAT32 root of 2 clusters (chain 2->4); FAT16 sub-directory of 2 "
-           "clusters (chain 3->5); looked-up name symbolic (11 bytes); listing compared at a symbolic index k",
+           "markers arise as values): FAT16 fixed root of 16 slots; FAT32 root of 2 clusters (chain 2->4) and FAT16 sub-directory of 2 "
+           "clusters (chain 3->5) with the first cluster holding 16 concrete live entries and the second fully symbolic; looked-up name symbolic (11 bytes); listing compared at a symbolic index k",
     outside="directories of more than 2 clusters / more than 1 block per cluster; symbolic chain topology (chains are concrete "
             "per instance because a symbolic next-cluster value makes every block access symbolic); FAT16 roots of other sizes "
             "(the block count arithmetic BlockCount::from_bytes is covered for 16 entries only); open_dir's use of the entry's "
@@ -297,9 +297,9 @@ PROPS["C06"] = dict(
 )
 H("C06", "vk_fat", "c06_find_root16", desc="find_directory_entry == spec lookup (first matching slot before the end marker, stored fields)", bounds="FAT16 root 16 slots fully symbolic, name symbolic", timeout=1500, cost=3, mem_gb=20)
 H("C06", "vk_fat", "c06_iterate_root16", desc="iterate_dir == spec listing: count and k-th entry (order, fields), no deleted slot, nothing past the end marker", bounds="FAT16 root 16 slots fully symbolic, k symbolic", timeout=1500, cost=3, mem_gb=20)
-H("C06", "vk_fat", "c06_find_root32_two_clusters", desc="FAT32 root over chain 2->4: lookup continues into the second cluster", bounds="2x16 slots symbolic", timeout=2400, cost=4, mem_gb=24)
-H("C06", "vk_fat", "c06_iterate_root32_two_clusters", tier="thorough", desc="FAT32 root over chain 2->4: listing", bounds="2x16 slots symbolic, k symbolic", timeout=3600, cost=5, mem_gb=24)
-H("C06", "vk_fat", "c06_find_subdir16_two_clusters", desc="FAT16 sub-directory over chain 3->5: lookup follows the chain", bounds="2x16 slots symbolic", timeout=2400, cost=4, mem_gb=24)
+H("C06", "vk_fat", "c06_find_root32_two_clusters", tier="thorough", desc="FAT32 root over chain 2->4: lookup continues into the second cluster", bounds="first cluster 16 concrete live entries, second cluster 16 slots fully symbolic, name symbolic", timeout=2400, cost=4, mem_gb=24)
+H("C06", "vk_fat", "c06_iterate_root32_two_clusters", tier="thorough", desc="FAT32 root over chain 2->4: listing", bounds="first cluster concrete, second fully symbolic, k symbolic", timeout=3600, cost=5, mem_gb=24)
+H("C06", "vk_fat", "c06_find_subdir16_two_clusters", tier="thorough", desc="FAT16 sub-directory over chain 3->5: lookup follows the chain", bounds="first cluster 16 concrete live entries, second cluster 16 slots fully symbolic, name symbolic", timeout=2400, cost=4, mem_gb=24)
 
 PROPS["C03"] = dict(bounds="(in progress)", outside="")
 PROPS["C02"] = dict(bounds="(in progress)", outside="")
@@ -310,9 +310,10 @@ H("C02", "vk_fat", "c02_write_entry_fat16_s15", tier="thorough", desc="same, slo
 H("C02", "vk_fat", "c02_write_entry_fat32_s7", desc="same, FAT32 (cluster high word), slot 7", bounds="block and entry fully symbolic", timeout=1500, cost=3, mem_gb=20)
 UW_TRUNC = [("truncate_cluster_chain", r".", 6)]
 H("C16", "vk_fat", "c16_update_info_sector", desc="update_info_sector writes count/hint at 488..496, preserves the rest, unknown stays as found", bounds="info sector fully symbolic, record symbolic")
-for n in ["c16_truncate32_chain3", "c16_truncate32_chain2"]:
-    H("C16", "vk_fat", n, desc="truncate_cluster_chain: kept cluster EOC, tail free, frame, both FAT copies equal, free count += clusters freed, hint sane", bounds="concrete chain, record symbolic", unwindset=UW_TRUNC, timeout=1500, cost=3, mem_gb=20)
-for n in ["c16_truncate32_chain1", "c16_truncate32_chain4"]:
+UW_TRUNC3 = [("truncate_cluster_chain", r".", 3)]
+for n in ["c16_truncate16_chain2"]:
+    H("C16", "vk_fat", n, tier="thorough", desc="truncate_cluster_chain: kept cluster EOC, tail free, frame, free count += clusters freed, hint sane", bounds="concrete chain, record symbolic", unwindset=UW_TRUNC3, timeout=1500, cost=3, mem_gb=30)
+for n in ["c16_truncate16_chain1", "c16_truncate16_chain4", "c16_truncate16_chain3"]:
     H("C16", "vk_fat", n, tier="thorough", desc="truncate_cluster_chain on 1- and 4-cluster chains", bounds="concrete chain, record symbolic", unwindset=UW_TRUNC, timeout=1500, cost=3, mem_gb=20)
 
 PROPS["C01"] = dict(bounds="(in progress)", outside="")
@@ -323,10 +324,118 @@ for n, t in [("c01_read_start", "quick"), ("c01_read_cross_cluster", "quick"), (
 
 UW_WRITE = UW_ALLOC + [("vk_fsop", r"pos < 2048", 2050)]
 _wr = "VolumeManager::write: bytes in range == payload, other file bytes unchanged, length/offset, chain growth from free clusters linked after the tail, FAT frame, only FAT + own clusters written, other open file untouched, dirty set, cursor cache consistent"
-for n, t, p in [("c01_write_middle", "quick", "C01"), ("c01_write_block_start_partial", "quick", "C01"), ("c01_write_cross_end_midblock", "quick", "C01"), ("c01_write_extend_one", "quick", "C01"),
-             ("c01_write_extend_stale_cursor", "quick", "C01"), ("c01_write_first_cluster", "thorough", "C01"), ("c01_write_full_block", "thorough", "C01"), ("c01_write_extend_within_cluster", "thorough", "C01"),
+for n, t, p in [("c01_write_middle", "quick", "C01"), ("c01_write_block_start_partial", "quick", "C01"), ("c01_write_cross_end_midblock", "quick", "C01"), ("c01_write_extend_one", "thorough", "C01"),
+             ("c01_write_extend_stale_cursor", "thorough", "C01"), ("c01_write_first_cluster", "thorough", "C01"), ("c01_write_full_block", "thorough", "C01"), ("c01_write_extend_within_cluster", "thorough", "C01"),
              ("c01_write_extend_two", "thorough", "C01"), ("c01_write_backward_chain", "thorough", "C01"), ("c01_write_empty_buffer", "thorough", "C01"),
-             ("c05_write_last_free_cluster", "quick", "C05"), ("c05_write_disk_full_partial", "quick", "C05"), ("c05_write_disk_full_none", "thorough", "C05"),
+             ("c05_write_last_free_cluster", "thorough", "C05"), ("c05_write_disk_full_partial", "thorough", "C05"), ("c05_write_disk_full_none", "thorough", "C05"),
              ("c07_write_readonly_refused", "quick", "C07")]:
     H(p, "vk_fsop", n, tier=t, desc=_wr, bounds="payload (<=600 B), old file contents and root block fully symbolic; chain/size/offset/cursor/length/free map concrete per instance", unwindset=UW_ALLOC, timeout=2400, cost=4, mem_gb=30)
 PROPS["C07"] = dict(bounds="(in progress)", outside="")
+
+UW_DIR = [("memcmp", r".", 12),
+          ("find_entry_in_block|delete_entry_in_block", r".", 17),
+          ("FatVolume::find_directory_entry|FatVolume::delete_directory_entry|FatVolume::iterate_fat", r"chunks_exact", 17),
+          ("FatVolume::find_directory_entry|FatVolume::delete_directory_entry|FatVolume::iterate_fat", r".", 3),
+          ("FatVolume::write_new_directory_entry", r"chunks_exact", 17),
+          ("FatVolume::write_new_directory_entry", r".", 3)]
+UW_OPEN = UW_ALLOC + UW_TRUNC + UW_DIR
+_od = "open_file_in_dir result == documented mode matrix for this (target, mode); refused calls write nothing and leave the tables unchanged; truncate empties and frees the tail; append starts at the end; created file empty in the first free slot; fresh handle"
+H("C07", "vk_fsop", "c07_open_a_ro", desc=_od, bounds="target A, mode ro", unwindset=UW_OPEN, timeout=1500, cost=3, mem_gb=20)
+H("C07", "vk_fsop", "c07_open_a_append", desc=_od, bounds="target A, mode append", unwindset=UW_OPEN, timeout=1500, cost=3, mem_gb=20)
+H("C07", "vk_fsop", "c07_open_a_trunc", tier="thorough", desc=_od, bounds="target A, mode trunc", unwindset=UW_OPEN, timeout=3600, cost=3, mem_gb=40)
+H("C07", "vk_fsop", "c07_open_a_create", desc=_od, bounds="target A, mode create", unwindset=UW_OPEN, timeout=1500, cost=3, mem_gb=20)
+H("C07", "vk_fsop", "c07_open_a_create_or_trunc", tier="thorough", desc=_od, bounds="target A, mode create_or_trunc", unwindset=UW_OPEN, timeout=3600, cost=3, mem_gb=40)
+H("C07", "vk_fsop", "c07_open_a_create_or_append", desc=_od, bounds="target A, mode create_or_append", unwindset=UW_OPEN, timeout=1500, cost=3, mem_gb=20)
+H("C07", "vk_fsop", "c07_open_r_ro", desc=_od, bounds="target R, mode ro", unwindset=UW_OPEN, timeout=1500, cost=3, mem_gb=20)
+H("C07", "vk_fsop", "c07_open_r_append", desc=_od, bounds="target R, mode append", unwindset=UW_OPEN, timeout=1500, cost=3, mem_gb=20)
+H("C07", "vk_fsop", "c07_open_r_trunc", tier="thorough", desc=_od, bounds="target R, mode trunc", unwindset=UW_OPEN, timeout=1500, cost=3, mem_gb=20)
+H("C07", "vk_fsop", "c07_open_r_create", tier="thorough", desc=_od, bounds="target R, mode create", unwindset=UW_OPEN, timeout=1500, cost=3, mem_gb=20)
+H("C07", "vk_fsop", "c07_open_r_create_or_trunc", desc=_od, bounds="target R, mode create_or_trunc", unwindset=UW_OPEN, timeout=1500, cost=3, mem_gb=20)
+H("C07", "vk_fsop", "c07_open_r_create_or_append", desc=_od, bounds="target R, mode create_or_append", unwindset=UW_OPEN, timeout=1500, cost=3, mem_gb=20)
+H("C07", "vk_fsop", "c07_open_d_ro", desc=_od, bounds="target D, mode ro", unwindset=UW_OPEN, timeout=1500, cost=3, mem_gb=20)
+H("C07", "vk_fsop", "c07_open_d_append", tier="thorough", desc=_od, bounds="target D, mode append", unwindset=UW_OPEN, timeout=1500, cost=3, mem_gb=20)
+H("C07", "vk_fsop", "c07_open_d_trunc", tier="thorough", desc=_od, bounds="target D, mode trunc", unwindset=UW_OPEN, timeout=1500, cost=3, mem_gb=20)
+H("C07", "vk_fsop", "c07_open_d_create", tier="thorough", desc=_od, bounds="target D, mode create", unwindset=UW_OPEN, timeout=1500, cost=3, mem_gb=20)
+H("C07", "vk_fsop", "c07_open_d_create_or_trunc", tier="thorough", desc=_od, bounds="target D, mode create_or_trunc", unwindset=UW_OPEN, timeout=1500, cost=3, mem_gb=20)
+H("C07", "vk_fsop", "c07_open_d_create_or_append", tier="thorough", desc=_od, bounds="target D, mode create_or_append", unwindset=UW_OPEN, timeout=1500, cost=3, mem_gb=20)
+H("C07", "vk_fsop", "c07_open_o_ro", tier="thorough", desc=_od, bounds="target O, mode ro", unwindset=UW_OPEN, timeout=1500, cost=3, mem_gb=20)
+H("C07", "vk_fsop", "c07_open_o_append", desc=_od, bounds="target O, mode append", unwindset=UW_OPEN, timeout=1500, cost=3, mem_gb=20)
+H("C07", "vk_fsop", "c07_open_o_trunc", tier="thorough", desc=_od, bounds="target O, mode trunc", unwindset=UW_OPEN, timeout=1500, cost=3, mem_gb=20)
+H("C07", "vk_fsop", "c07_open_o_create", tier="thorough", desc=_od, bounds="target O, mode create", unwindset=UW_OPEN, timeout=1500, cost=3, mem_gb=20)
+H("C07", "vk_fsop", "c07_open_o_create_or_trunc", tier="thorough", desc=_od, bounds="target O, mode create_or_trunc", unwindset=UW_OPEN, timeout=1500, cost=3, mem_gb=20)
+H("C07", "vk_fsop", "c07_open_o_create_or_append", tier="thorough", desc=_od, bounds="target O, mode create_or_append", unwindset=UW_OPEN, timeout=1500, cost=3, mem_gb=20)
+H("C07", "vk_fsop", "c07_open_m_ro", desc=_od, bounds="target M, mode ro", unwindset=UW_OPEN, timeout=1500, cost=3, mem_gb=20)
+H("C07", "vk_fsop", "c07_open_m_append", tier="thorough", desc=_od, bounds="target M, mode append", unwindset=UW_OPEN, timeout=1500, cost=3, mem_gb=20)
+H("C07", "vk_fsop", "c07_open_m_trunc", tier="thorough", desc=_od, bounds="target M, mode trunc", unwindset=UW_OPEN, timeout=3600, cost=3, mem_gb=40)
+H("C07", "vk_fsop", "c07_open_m_create", tier="thorough", desc=_od, bounds="target M, mode create", unwindset=UW_OPEN, timeout=3600, cost=3, mem_gb=40)
+H("C07", "vk_fsop", "c07_open_m_create_or_trunc", tier="thorough", desc=_od, bounds="target M, mode create_or_trunc", unwindset=UW_OPEN, timeout=3600, cost=3, mem_gb=40)
+H("C07", "vk_fsop", "c07_open_m_create_or_append", tier="thorough", desc=_od, bounds="target M, mode create_or_append", unwindset=UW_OPEN, timeout=3600, cost=3, mem_gb=40)
+
+H("C06", "vk_fat", "c06_find_subdir16_chain_followed", tier="thorough", desc="FAT16 sub-directory over chain 3->5: lookup follows the chain into the second cluster", bounds="first cluster concrete (16 live entries), second cluster slots 0-3 symbolic, name symbolic", unwindset=UW_DIR, timeout=1500, cost=3, mem_gb=20)
+for n, t in [("c01_locate_first", "quick"), ("c01_locate_third_from_start", "quick"), ("c01_locate_backwards", "quick"), ("c01_locate_from_cache", "thorough"), ("c01_locate_eof_from_start", "quick"), ("c01_locate_eof_from_cache", "quick"), ("c01_locate_eof_backward_chain", "thorough")]:
+    H("C01", "vk_fsop", n, tier=t, desc="find_data_on_disk: offset -> (block of chain[offset/512], byte offset, bytes available); cursor cache; on EndOfFile the cursor rests on the chain tail", bounds="concrete chain/cursor/offset", timeout=900, cost=2, mem_gb=16)
+
+PROPS["C10"] = dict(bounds="(in progress)", outside="")
+PROPS["C09"] = dict(bounds="(in progress)", outside="")
+PROPS["C11"] = dict(bounds="(in progress)", outside="")
+UW_CRASH = UW_ALLOC + UW_TRUNC + UW_DIR
+_cr = "power cut after a symbolic number k of block writes of the call (writes >= k dropped): "
+H("C10", "vk_fat", "c10_crash_alloc_extend16", tier="thorough", desc=_cr + "chain never leads to a free cluster; unrelated flushed file intact", bounds="FAT16, chain 3->2 extended, k<=6", unwindset=UW_CRASH, timeout=1500, cost=3, mem_gb=24)
+H("C10", "vk_fat", "c10_crash_truncate16", tier="thorough", desc=_cr + "truncated chain never leads to a free cluster", bounds="FAT16, chain 3->5->2, k<=6", unwindset=UW_ALLOC + [("truncate_cluster_chain", r".", 4)] + UW_DIR, timeout=1500, cost=3, mem_gb=24)
+H("C10", "vk_fat", "c10_crash_make_dir16", desc=_cr + "a visible sub-directory entry has an allocated, initialised cluster; other entries intact", bounds="FAT16 root, stale free cluster contents symbolic, k<=10", unwindset=UW_CRASH, timeout=1800, cost=4, mem_gb=24)
+for n, t in [("c10_crash_alloc_extend16", "thorough"), ("c10_crash_truncate16", "thorough"), ("c10_crash_make_dir16", "quick")]:
+    H("C09", "vk_fat", n, tier=t, desc=_cr + "FAT entry, directory entry and data of an unrelated flushed file are unchanged on the medium", bounds="see C10", unwindset=UW_CRASH, timeout=1800, cost=4, mem_gb=24)
+H("C11", "vk_fat", "c11_cache_invalidated_on_failed_read", desc="BlockCache: failed (scribbling) read invalidates the cache tag; next read returns real contents", bounds="2 symbolic blocks", timeout=900, mem_gb=16)
+H("C11", "vk_fat", "c11_find_fault_root16", desc="lookup in the FAT16 root whose device read fails: DeviceError; retried call without fault answers correctly", bounds="16 concrete entries, fault on call 0", unwindset=UW_DIR, timeout=900, cost=2, mem_gb=20)
+for n in ["c11_iterate_fault_dir_block", "c11_iterate_fault_fat_read"]:
+    H("C11", "vk_fat", n, desc="directory lookup / listing with a device read fault at a concrete call index: the fault is reported as DeviceError, never NotFound / a truncated Ok listing", bounds="FAT16 2-cluster sub-directory (32 concrete entries), fault on the directory block / on the FAT read between the clusters", unwindset=UW_DIR, timeout=3000, cost=2, mem_gb=30)
+for n in ["c11_find_fault_second_cluster", "c11_iterate_no_fault", "c11_find_fault_dir_block", "c11_find_fault_fat_read"]:
+    H("C11", "vk_fat", n, tier="thorough", desc="same, fault on the second cluster / no fault", bounds="same", unwindset=UW_DIR, timeout=900, cost=2, mem_gb=20)
+
+for n in ["c09_crash_create_entry16", "c09_crash_delete_entry16"]:
+    for pr in ("C09", "C10"):
+        H(pr, "vk_fat", n, desc=_cr + "creating / deleting another file's entry in the directory block shared with a flushed file: that file's entry, FAT entry and data unchanged on the medium; other slots unchanged", bounds="FAT16 root, flushed file size/data symbolic, k<=3", unwindset=UW_DIR, timeout=1200, cost=3, mem_gb=24)
+
+# ---------------------------------------------------------------------------
+# final bounds / outside-the-claim texts (see DESIGN.md section 4)
+# ---------------------------------------------------------------------------
+_geo = "geometries G16a (FAT16, 1 FAT, 1 block/cluster, 4 clusters, 16 root entries) and G32a (FAT32, 2 FATs, 4 clusters); "
+PROPS["C01"] = dict(
+    bounds=_geo + "one read/write/locate call on a manager with 1 volume, 1 directory, 2 open files; file contents, payload (<=600 B) and directory block fully symbolic; chain (3->5->2, 5->3, 3->5), size, offset, cursor cache and length concrete per instance (start, block/cluster crossing, two crossings, clipped at EOF, at EOF, backwards seek, cursor behind, aligned full block, empty buffer; writes: middle, block-start partial, >=512 B ending mid-block)",
+    outside="offsets/lengths outside the instance classes; files > 3 clusters; > 1 block per cluster; several volumes; embedded-io adapters; extending writes (thorough tier, do not finish - decided piecewise: find_data_on_disk EOF contract + alloc_cluster linking); histories by one-step argument",
+    assumptions=["byte-array file model = concatenation of the chain's clusters (harness)", "pre-state: cursor cache either (0, first) or a true (offset, cluster) pair of the chain"])
+PROPS["C02"] = dict(
+    bounds="write_entry_to_disk (what flush/close write): directory block and entry fully symbolic (name, attributes, size, cluster < 2^16 / 2^28, timestamps), slot 0/15 (FAT16) and 7 (FAT32): all 512 bytes compared at concrete positions against the FAT spec layout",
+    outside="end-to-end remount by this library and by an independent reader (composed from C15 layout + C06 reader + C01 read, not run); mtime = clock / archive bit after write (harness clock constant); create/mkdir/delete/truncate paths are C03/C07/C10's",
+    assumptions=["FAT directory-slot layout = literal offsets in the harness (spec_slot_byte)"])
+PROPS["C03"] = dict(
+    bounds=_geo + "write_new_directory_entry and delete_directory_entry on a fully symbolic 16-slot FAT16 root with symbolic name/attributes/clock; chain conditions (old chain is a prefix, new clusters were free, long enough for the size, FAT frame) on the C01 write instances and C05 allocator instances",
+    outside="a global WF(pre) => WF(post) over a whole symbolic volume is not encoded (symbolic chain topology makes every block index symbolic); make_dir only for crash behaviour (C10); directory growth; unique names / dot entries",
+    assumptions=[])
+PROPS["C04"] = dict(
+    bounds="cluster_to_block for fully symbolic geometry (any partition offset/size, 1..128 blocks per cluster, any cluster count, FAT16/FAT32) under the mount invariant; update_fat on a fully symbolic FAT sector (entry 3; entry 255 thorough); region/frame assertions of the C01/C03/C05 harnesses on 9/10-block devices whose every block outside the volume is a guard",
+    outside="multi-partition devices beyond the symbolic-geometry arithmetic; byte-level frame of extending writes (thorough, do not finish)",
+    assumptions=["mount invariant: data area = first_data .. first_data + count*bpc inside the partition (established by C15)"])
+PROPS["C05"] = dict(
+    bounds=_geo + "FAT entry decoding for all 2^16 / 2^32 values; free-cluster search with 4 clusters + 2 slack FAT entries symbolic and concrete scan start (2, 4 / 5 dirty); alloc_cluster on 13 concrete (free map, prev, hint, zero) instances incl. last free cluster, stale hints (slack, beyond volume), used slack",
+    outside="delete/truncate returning clusters (delete_file_in_dir does not free the chain - seen by reading, no check; truncate harness does not finish); write() at disk full (thorough, does not finish); FAT sectors beyond the first; fill/refill cycles by argument only",
+    assumptions=[])
+PROPS["C07"] = dict(
+    bounds=_geo + "open_file_in_dir for 30 (target, mode) pairs - targets: existing file, read-only-attribute file, directory, already-open file, missing name - 11 in the quick tier; write on a ReadOnly handle; names given as ShortFileName",
+    outside="truncating / creating pairs are thorough (40 GB); delete_file_in_dir and open_dir refusals; invalid 8.3 strings (parser is C18)",
+    assumptions=["documented mode matrix written in the harness (open_case)"])
+PROPS["C09"] = dict(
+    bounds="power cut after a symbolic number k of block writes (SymDisk persisted image): creating / deleting another file's directory entry in the block shared with a flushed file, and mkdir next to it; flushed file's slot, FAT entry and data compared byte by byte",
+    outside="crash inside extending writes, truncate-open, directory growth, close_volume (thorough harnesses do not finish); histories by one-step argument; block writes assumed atomic and ordered",
+    assumptions=["block writes atomic and ordered (as the property states)"])
+PROPS["C10"] = dict(
+    bounds="same crash device; make_dir in a FAT16 root with stale free-cluster contents symbolic, k <= 10; create/delete entry, k <= 3",
+    outside="as C09; 'medium mounts' is not re-run after the cut", assumptions=["block writes atomic and ordered"])
+PROPS["C11"] = dict(
+    bounds="BlockCache with a failing, scribbling read; lookup in a FAT16 root whose read fails (+ retried call); listing of a 2-cluster FAT16 sub-directory with the fault on the directory block / on the FAT read between the clusters",
+    outside="faults inside read/write/create/mkdir/flush, multi-fault sequences, 'handles remain usable', 'no duplicate name after a failed create', lookup faults over 32 entries (thorough, do not finish)",
+    assumptions=[])
+PROPS["C16"] = dict(
+    bounds="update_fat on a 2-FAT FAT32 volume with both FAT sectors fully symbolic (entry 5; 127 thorough): copies identical afterwards, reserved nibble preserved; update_info_sector with info sector and in-memory record fully symbolic",
+    outside="free-count arithmetic of truncate_cluster_chain (thorough, does not finish) and of alloc_cluster (only totality); 'since mount' accounting over histories",
+    assumptions=[])
